@@ -1,6 +1,14 @@
 import ParryModel.Field
 import ParryModel.C09.Model
 import ParryModel.C19.Model
+import ParryModel.C20.Theorems2
+import ParryModel.C20.Theorems3
+import ParryModel.C20.Theorems4
+import ParryModel.C20.Theorems5
+import ParryModel.C20.Theorems6
+import ParryModel.C20.Theorems7
+import ParryModel.C20.Theorems8
+import ParryModel.C20.Theorems9
 /-!
 # C20 theorems: definedness at the NaN-propagating instance `NaNable = Option Rat`
 (`x/0 = none`, `sqrt` of a negative = `none`, every comparison with `none` is false — IEEE behaviour).
